@@ -88,6 +88,7 @@ def s_menu(world):
                 Req('set', label='set(a.np=1%s)' % suf, name='a', options={'numprocesses': 1}, **kw)]
     evs.append(Req('kill', label='kill(a)', name='a'))
     evs.append(Req('kill', label='kill(a,gt=0.6,waiting)', name='a', graceful_timeout=0.6, waiting=True))
+    evs.append(Req('kill', label='kill(a,gt=0,waiting)', name='a', graceful_timeout=0, waiting=True))
     return [S(e) for e in evs]
 
 
@@ -107,7 +108,8 @@ def run(scn, ch):
         return _run_ondemand(scn, ch, res)
     if scn.name == 'output':
         return _run_output(scn, ch, res)
-    world = World(ch, [WSpec('a', numprocesses=scn.n, graceful_timeout=G, warmup_delay=scn.w,
+    g_a = 1.0 if scn.p.get('tight') else G        # (tight: a grace period well above the request's own 0)
+    world = World(ch, [WSpec('a', numprocesses=scn.n, graceful_timeout=g_a, warmup_delay=scn.w,
                              behaviours=pattern(scn.pat), respawn=scn.p.get('respawn', True)),
                        WSpec('b', numprocesses=1, graceful_timeout=G)])
     world.s_records = []
@@ -150,7 +152,7 @@ def run(scn, ch):
                 # the applicable grace periods: one per termination phase of the operation (the reply of a kill request
                 # that carries its own grace period: that one)
                 phases = scn.n if ev.label.startswith('reload-seq') else 1
-                limit = phases * float(ev.props.get('graceful_timeout', G)) + scn.n * scn.w + 0.5
+                limit = phases * float(ev.props.get('graceful_timeout', g_a)) + scn.n * scn.w + 0.5
             rep = rq.reply()
             waiting = bool(ev.props.get('waiting'))
             accepted = rq.replied() and (rep or {}).get('status') == 'ok' if not waiting else None
